@@ -158,6 +158,23 @@ let hmap_str (m : hmap) : string =
 let maps_of s = if s = "~" then [] else List.map hmap_of (split_on ';' s)
 let maps_str l = if l = [] then "~" else String.concat ";" (List.map hmap_str l)
 
+let omap_of (s : string) : omap =
+  match split_on '.' s with
+  | [t; id; fs] ->
+      { o_idtag = bytes_of_hex t; o_id = bytes_of_hex id;
+        o_fields = (if fs = "~" then [] else List.map (fun kv -> match split_on ':' kv with
+          | [k; v] -> (bytes_of_hex k, bytes_of_hex v) | _ -> failwith "ofkv") (split_on '/' fs)) }
+  | _ -> failwith "omap"
+let omap_str (m : omap) : string =
+  hex_of_bytes m.o_idtag ^ "." ^ hex_of_bytes m.o_id ^ "." ^
+  (if m.o_fields = [] then "~" else String.concat "/" (List.map (fun (k, v) -> hex_of_bytes k ^ ":" ^ hex_of_bytes v) m.o_fields))
+let coll_of (s : string) : hcoll =
+  if starts s "@" then (let r = sub s 1 in CS (if r = "" then [] else List.map omap_of (split_on '+' r)))
+  else CU (if s = "" then [] else List.map bytes_of_hex (split_on '+' s))
+let coll_str (c : hcoll) : string = match c with
+  | CU vs -> String.concat "+" (List.map hex_of_bytes vs)
+  | CS ms -> "@" ^ String.concat "+" (List.map omap_str ms)
+
 let header_of (s : string) : vheader =
   match split_on '|' s with
   | [ff; i; fl; fo; al; co; ot; sm] ->
@@ -165,24 +182,28 @@ let header_of (s : string) : vheader =
       { hh_ff = (a, b); hh_infos = maps_of i; hh_filters = maps_of fl; hh_formats = maps_of fo; hh_alts = maps_of al;
         hh_contigs = maps_of co;
         hh_others = (if ot = "~" then [] else List.map (fun g -> match split_on '=' g with
-          | [k; vs] -> (bytes_of_hex k, List.map bytes_of_hex (split_on '+' vs)) | _ -> failwith "og") (split_on ';' ot));
+          | [k; c] -> (bytes_of_hex k, coll_of c) | _ -> failwith "og") (split_on ';' ot));
         hh_samples = lst_of sm }
   | _ -> failwith "header"
 let header_str (h : vheader) : string =
   let (a, b) = h.hh_ff in
   String.concat "|" [dec_of_n a ^ "." ^ dec_of_n b; maps_str h.hh_infos; maps_str h.hh_filters; maps_str h.hh_formats;
     maps_str h.hh_alts; maps_str h.hh_contigs;
-    (if h.hh_others = [] then "~" else String.concat ";" (List.map (fun (k, vs) ->
-       hex_of_bytes k ^ "=" ^ String.concat "+" (List.map hex_of_bytes vs)) h.hh_others));
+    (if h.hh_others = [] then "~" else String.concat ";" (List.map (fun (k, c) ->
+       hex_of_bytes k ^ "=" ^ coll_str c) h.hh_others));
     lst_str h.hh_samples]
 let lines_str ls = String.concat "," (List.map hex_of_bytes ls)
 let lines_of s = if s = "~" then [] else List.map bytes_of_hex (split_on ',' s)
-let hres ls = if unmodelled_lines ls then "U" else match read_header_chk ls with None -> "Err" | Some h -> header_str h
+let hres ls = match read_header_chk ls with None -> "Err" | Some h -> header_str h
+(* a parsed header and what the writer model emits for it *)
+let hres_w ls = match read_header_chk ls with
+  | None -> "Err"
+  | Some h -> header_str h ^ "|" ^ (match write_header h with Some ws -> lines_str ws | None -> "WErr")
 
 (* ---- whole files (NV.Vcf.File) ---- *)
 let file_obs tab text =
-  if file_unmodelled text then "U" else
-  match read_file_eager_std (prs_of tab) text, read_file_lazy_std (prs_of tab) text with
+  (* the readers at the model switch header_stops_at_chrom_line (false = /repo today) *)
+  match read_file_eager_cur_std (prs_of tab) text, read_file_lazy_cur_std (prs_of tab) text with
   | Some (h, (es, eok)), Some (_, (ls, lok)) ->
       let fin ok = if ok then "$Eof" else "$Err" in
       header_str h ^ "|E:" ^ String.concat "^" (List.map rec_str es) ^ fin eok
@@ -291,7 +312,7 @@ let handle kind a =
         (match write_header (header_of a.(0)) with
          | None -> Some "WErr"
          | Some ls -> Some (lines_str ls ^ "|" ^ hres ls))
-    | "hp" -> Some (hres (lines_of a.(0)))
+    | "hp" -> Some (hres_w (lines_of a.(0)))
     | _ -> None
   with Unmodelled -> None
 
